@@ -491,6 +491,12 @@ func menu() []dev {
 		add(who+".extref2", "website", func(r, a *sbom.Node) {
 			pick(r, a).ExternalReferences = append(pick(r, a).ExternalReferences, &sbom.ExternalReference{Type: sbom.ExternalReference_WEBSITE, Url: "https://w"})
 		})
+		add(who+".extref2", "bom+2hashes", func(r, a *sbom.Node) {
+			pick(r, a).ExternalReferences = append(pick(r, a).ExternalReferences, &sbom.ExternalReference{Type: sbom.ExternalReference_BOM, Url: "https://bom/x", Hashes: map[int32]string{int32(sbom.HashAlgorithm_SHA1): "dd", int32(sbom.HashAlgorithm_MD5): "ee"}})
+		})
+		add(who+".extref3", "docs+hash", func(r, a *sbom.Node) {
+			pick(r, a).ExternalReferences = append(pick(r, a).ExternalReferences, &sbom.ExternalReference{Type: sbom.ExternalReference_DOCUMENTATION, Url: "https://docs/x", Comment: "d", Hashes: map[int32]string{int32(sbom.HashAlgorithm_SHA512): "ff"}})
+		})
 		add(who+".purpose", "library", func(r, a *sbom.Node) { pick(r, a).PrimaryPurpose = []sbom.Purpose{sbom.Purpose_LIBRARY} })
 		add(who+".purpose", "container", func(r, a *sbom.Node) { pick(r, a).PrimaryPurpose = []sbom.Purpose{sbom.Purpose_CONTAINER} })
 	}
